@@ -76,13 +76,8 @@ type obs struct {
 }
 
 func runHook(t *testing.T, sc *Scenario) (out []obs, bubbleErr string) {
-	defer func() {
-		if p := recover(); p != nil {
-			bubbleErr = fmt.Sprint(p)
-		}
-	}()
 	out = make([]obs, len(sc.Programs))
-	synctest.Test(t, func(t *testing.T) {
+	bubbleErr = simkit.Bubble(t, func(t *testing.T) {
 		start := time.Now()
 		now := func() time.Duration { return time.Since(start) }
 		var wg sync.WaitGroup
@@ -161,19 +156,17 @@ func runHook(t *testing.T, sc *Scenario) (out []obs, bubbleErr string) {
 		time.Sleep(time.Hour)
 		synctest.Wait()
 	})
-	return out, ""
+	if bubbleErr == simkit.RaceOrFailNow {
+		bubbleErr = ""
+	}
+	return out, bubbleErr
 }
 
 // flow: a complete cooperative handshake with immediate answers, then a long idle phase: no timer
 // of an earlier phase may tear the connection down.
 func runFlowComplete(t *testing.T, server, racing bool) (evs []simkit.Ev, bubbleErr string) {
-	defer func() {
-		if p := recover(); p != nil {
-			bubbleErr = fmt.Sprint(p)
-		}
-	}()
 	l := simkit.NewLog()
-	synctest.Test(t, func(t *testing.T) {
+	bubbleErr = simkit.Bubble(t, func(t *testing.T) {
 		ep := simkit.NewEndpoint(l, simkit.EndpointCfg{Who: "E", Server: server, Paired: true, AllowWait: true, LocalID: "L", StoredRemoteID: ""})
 		ep.Conn.Run()
 		acc := 0
@@ -214,19 +207,17 @@ func runFlowComplete(t *testing.T, server, racing bool) (evs []simkit.Ev, bubble
 		time.Sleep(time.Hour)
 		synctest.Wait()
 	})
-	return l.Events(), ""
+	if bubbleErr == simkit.RaceOrFailNow {
+		bubbleErr = ""
+	}
+	return l.Events(), bubbleErr
 }
 
 // flow: untrusted server waiting for the user; the peer answers every prolongation request at
 // once. Requests may only be sent 30 s after the last (re)start of the prolongation timer.
 func runFlowPending(t *testing.T, racing bool, rounds int) (evs []simkit.Ev, bubbleErr string) {
-	defer func() {
-		if p := recover(); p != nil {
-			bubbleErr = fmt.Sprint(p)
-		}
-	}()
 	l := simkit.NewLog()
-	synctest.Test(t, func(t *testing.T) {
+	bubbleErr = simkit.Bubble(t, func(t *testing.T) {
 		ep := simkit.NewEndpoint(l, simkit.EndpointCfg{Who: "E", Server: true, AllowWait: true, LocalID: "L"})
 		woke := make(chan struct{}, 4)
 		ep.W.OnWrite = func() {
@@ -267,7 +258,10 @@ func runFlowPending(t *testing.T, racing bool, rounds int) (evs []simkit.Ev, bub
 		time.Sleep(time.Hour)
 		synctest.Wait()
 	})
-	return l.Events(), ""
+	if bubbleErr == simkit.RaceOrFailNow {
+		bubbleErr = ""
+	}
+	return l.Events(), bubbleErr
 }
 
 func TestEngine(t *testing.T) {
